@@ -13,24 +13,38 @@ use redis_sim::simulator::multi_node::MultiNodeSimulation;
 use serde_json::{json, Value};
 use std::collections::{BTreeMap, HashMap};
 
-const DEPTH: usize = 8;
+/// depths of the digest tree tried (the default is 8; the configuration allows any)
+const DEPTHS: [usize; 6] = [8, 4, 10, 1, 12, 9];
 
-/// key names: several per real bucket, found by asking the real KeyDigest
-fn colliding_keys() -> Vec<String> {
+/// key names: several per real bucket (a low, a middle and the highest bucket in use), found by asking the real KeyDigest
+fn colliding_keys(depth: usize) -> Vec<String> {
     let probe = mk_delta(&json!({"id": 0, "k": "x", "t": "set", "v": "v", "ts": 1, "r": 1})).value;
     let mut by_bucket: HashMap<usize, Vec<String>> = HashMap::new();
     for i in 0..4000 {
         let k = format!("key{i}");
-        let b = KeyDigest::new(&k, &probe).bucket(DEPTH);
+        let b = KeyDigest::new(&k, &probe).bucket(depth);
         by_bucket.entry(b).or_default().push(k);
     }
     let mut out = Vec::new();
-    let mut bs: Vec<_> = by_bucket.into_iter().collect();
+    let mut bs: Vec<_> = by_bucket.into_iter().filter(|(_, ks)| ks.len() >= if depth >= 10 { 1 } else { 5 }).collect();
     bs.sort();
-    for (_, ks) in bs.into_iter().take(3) {
-        out.extend(ks.into_iter().take(5));
+    let n = bs.len();
+    let picks: Vec<usize> = if n >= 3 { vec![0, n / 2, n - 1] } else { (0..n).collect() };
+    let per = 15 / picks.len().max(1);
+    for p in picks {
+        out.extend(bs[p].1.iter().take(per).cloned());
     }
-    out // 15 keys in 3 buckets
+    // deep trees: few keys share a bucket; fill up with keys of further high buckets
+    let mut j = n;
+    while out.len() < 15 && j > 0 {
+        j -= 1;
+        for k in &bs[j].1 {
+            if out.len() < 15 && !out.contains(k) {
+                out.push(k.clone());
+            }
+        }
+    }
+    out // 15 keys in (at least) 3 buckets
 }
 
 fn random_updates(rng: &mut impl Rng, keys: &[String], n: usize) -> Vec<Value> {
@@ -77,27 +91,27 @@ fn build(ups: &[&Value]) -> HashMap<String, ReplicatedValue> {
     m
 }
 
-fn state_json(m: &HashMap<String, ReplicatedValue>) -> Value {
+fn state_json(m: &HashMap<String, ReplicatedValue>, depth: usize) -> Value {
     let s: BTreeMap<&String, &ReplicatedValue> = m.iter().collect();
-    json!(s.iter().map(|(k, v)| json!([k, KeyDigest::new(k, v).bucket(DEPTH), obs(v)])).collect::<Vec<_>>())
+    json!(s.iter().map(|(k, v)| json!([k, KeyDigest::new(k, v).bucket(depth), obs(v)])).collect::<Vec<_>>())
 }
 
 
 /// One digest case and (optionally) one sync case for the two update orders.
-fn emit_cases(out: &mut Out, oa: &[&Value], ob: &[&Value], sync: bool, limit: usize, nkeys: usize) {
+fn emit_cases(out: &mut Out, oa: &[&Value], ob: &[&Value], sync: bool, limit: usize, nkeys: usize, depth: usize) {
     let run = out.n + 1;
     let sa = build(oa);
     let sb = build(ob);
     let r = catch(|| {
-        let da = StateDigest::from_state(&sa, ReplicaId::new(1), 0, DEPTH);
-        let db = StateDigest::from_state(&sb, ReplicaId::new(2), 0, DEPTH);
+        let da = StateDigest::from_state(&sa, ReplicaId::new(1), 0, depth);
+        let db = StateDigest::from_state(&sb, ReplicaId::new(2), 0, depth);
         // a second digest of an independent copy of A: must always be equal
         let sa2: HashMap<String, ReplicatedValue> = sa.iter().map(|(k, v)| (k.clone(), v.clone())).collect();
-        let da2 = StateDigest::from_state(&sa2, ReplicaId::new(1), 0, DEPTH);
+        let da2 = StateDigest::from_state(&sa2, ReplicaId::new(1), 0, depth);
         (da.differs_from(&db), da.divergent_buckets(&db), da.differs_from(&da2), db.differs_from(&da))
     });
     match r {
-        Ok((differs, div, selfdiff, differs_rev)) => out.emit(&json!({"t": "digest", "run": run, "a": state_json(&sa), "b": state_json(&sb),
+        Ok((differs, div, selfdiff, differs_rev)) => out.emit(&json!({"t": "digest", "run": run, "depth": depth, "a": state_json(&sa, depth), "b": state_json(&sb, depth),
             "differs": differs, "differs_rev": differs_rev, "divergent": div, "selfdiff": selfdiff})),
         Err(p) => out.emit(&json!({"t": "digest", "run": run, "a": [], "b": [], "differs": false, "differs_rev": false, "divergent": [], "selfdiff": false, "panic": p})),
     }
@@ -106,19 +120,20 @@ fn emit_cases(out: &mut Out, oa: &[&Value], ob: &[&Value], sync: bool, limit: us
         let mut sim = MultiNodeSimulation::new_without_anti_entropy(2, 7);
         for (node, order) in [(0usize, oa), (1usize, ob)] {
             sim.nodes[node].anti_entropy.config.max_keys_per_sync = limit;
+            sim.nodes[node].anti_entropy.config.merkle_tree_depth = depth;
             for u in order.iter() {
                 sim.nodes[node].replica_state.apply_remote_delta(mk_delta(u));
             }
         }
         let bound = 2 * ((nkeys + limit - 1) / limit) + 2;
-        let mut rounds = vec![json!([state_json(&sim.nodes[0].replica_state.replicated_keys), state_json(&sim.nodes[1].replica_state.replicated_keys)])];
+        let mut rounds = vec![json!([state_json(&sim.nodes[0].replica_state.replicated_keys, depth), state_json(&sim.nodes[1].replica_state.replicated_keys, depth)])];
         let res = catch(|| {
             for _ in 0..bound {
                 sim.run_anti_entropy_sync(0, 1);
-                rounds.push(json!([state_json(&sim.nodes[0].replica_state.replicated_keys), state_json(&sim.nodes[1].replica_state.replicated_keys)]));
+                rounds.push(json!([state_json(&sim.nodes[0].replica_state.replicated_keys, depth), state_json(&sim.nodes[1].replica_state.replicated_keys, depth)]));
             }
         });
-        let mut ev = json!({"t": "sync", "run": run, "limit": limit, "bound": bound, "rounds": rounds});
+        let mut ev = json!({"t": "sync", "run": run, "depth": depth, "limit": limit, "bound": bound, "rounds": rounds});
         if let Err(p) = res {
             ev["panic"] = json!(p);
         }
@@ -131,7 +146,8 @@ pub fn main(args: &[String]) -> i32 {
     quiet_panics();
     let mut out = Out::create(&a.str("out", "ae_cases.ndjson"));
     let mut rng = rng(a.u64("seed", 1));
-    let keys = colliding_keys();
+    let keysets: Vec<Vec<String>> = DEPTHS.iter().map(|d| colliding_keys(*d)).collect();
+    let keys = keysets[0].clone();
     let n = a.usize("n", 200);
     if a.pos.first().map(|s| s.as_str()) == Some("replay") {
         // TLC-exported version maps: keys 1..3 share a real bucket, key 4 lies in another
@@ -146,12 +162,32 @@ pub fn main(args: &[String]) -> i32 {
             let ub = side("B", 1);
             let oa: Vec<&Value> = ua.iter().collect();
             let ob: Vec<&Value> = ub.iter().collect();
-            emit_cases(&mut out, &oa, &ob, true, scn["limit"].as_u64().unwrap() as usize, 4);
+            emit_cases(&mut out, &oa, &ob, true, scn["limit"].as_u64().unwrap() as usize, 4, 8);
         }
         println!("{{\"cases\": {}}}", out.finish());
         return 0;
     }
+    // hashes with hundreds of fields: equal outer stamp and field count on both sides, one older field differs
+    for (ci, nf) in [257usize, 300, 40].iter().enumerate() {
+        let k = &keys[0];
+        let base: Vec<Value> = (0..*nf).map(|j| json!({"id": j, "k": k, "t": "hset", "f": format!("f{j}"), "v": "v", "ts": j + 1, "r": 1})).collect();
+        let over = json!({"id": 9000, "k": k, "t": "hset", "f": "f0", "v": "new", "ts": nf + 50, "r": 1});
+        let del = json!({"id": 9001, "k": k, "t": "hdel", "f": "f1", "ts": nf + 60, "r": 1});
+        let last = json!({"id": 9002, "k": k, "t": "hset", "f": "f5", "v": "z", "ts": nf + 100, "r": 2});
+        for (vi, extra) in [vec![&over], vec![&del], vec![]].iter().enumerate() {
+            let mut oa: Vec<&Value> = base.iter().collect();
+            oa.extend(extra.iter().cloned());
+            oa.push(&last);
+            let mut ob: Vec<&Value> = base.iter().collect();
+            ob.push(&last);
+            ob.reverse();
+            emit_cases(&mut out, &oa, &ob, ci < 2 && vi < 2, 3, 1, 8);
+        }
+    }
     for i in 0..n {
+        // the depth of the digest tree rotates (default 8; shallower and deeper trees are configurations too)
+        let depth = DEPTHS[i % DEPTHS.len()];
+        let keys = &keysets[i % DEPTHS.len()];
         let nk = rng.gen_range(2..keys.len());
         let nu = rng.gen_range(1..10);
         let ups = random_updates(&mut rng, &keys[..nk], nu);
@@ -173,7 +209,7 @@ pub fn main(args: &[String]) -> i32 {
                 oa.remove(j);
             }
         }
-        emit_cases(&mut out, &oa, &ob, i % 2 == 0, rng.gen_range(1..=3usize), keys.len());
+        emit_cases(&mut out, &oa, &ob, i % 2 == 0, rng.gen_range(1..=3usize), keys.len(), depth);
     }
     println!("{{\"cases\": {}}}", out.finish());
     0
